@@ -396,9 +396,19 @@ func runC02(c *Ctx) {
 		c.check(lb, "winner-orientation", fnKey(gl), p.FnPos(gl), "losers are the members of every group but the first", "losers are not exactly the other groups: "+why)
 	}
 
+	runLevelOwnership(c)
+
+	checkShareShape(c, "share-shape")
+}
+
+// checkShareShape: winners split a level into quotient shares plus exactly remainder extra chips;
+// losers lose exactly the level wager (C02/share-shape, cross-listed as C01/share-sum: the shares of a
+// level add up to its total, which the zero-sum of the result needs).
+func checkShareShape(c *Ctx, ruleName string) {
+	p := c.P
 	// ---- share-arithmetic
 	if wr := p.Func("settlement", "Result", "CalculateWinnerRewards"); wr == nil {
-		c.undecided("share-shape", "CalculateWinnerRewards", "-", "not found")
+		c.undecided(ruleName, "CalculateWinnerRewards", "-", "not found")
 	} else {
 		c.touch(fnKey(wr))
 		s := newSumm(p, 0)
@@ -453,11 +463,60 @@ func runC02(c *Ctx) {
 			if nPlus == 0 || nBase == 0 {
 				bad = append(bad, "expected a quotient case and a quotient+1 case")
 			}
+			// the extra chips handed out add up to exactly the remainder: for every number of
+			// winners n and remainder R < n, the number of loop indices on the quotient+1 row is R
+			ints, bools := tableVars(body)
+			var tRem, tLen, tIdx string
+			for _, t := range ints {
+				switch {
+				case strings.HasPrefix(t, "op%("+lvl+".Total, len("):
+					tRem = t
+				case strings.HasPrefix(t, "len(") && strings.Contains(t, "GetWinners("):
+					tLen = t
+				case strings.HasPrefix(t, "iter:"):
+					tIdx = t
+				}
+			}
+			if tRem == "" || tIdx == "" {
+				bad = append(bad, "the extra chip does not depend on both the winner's position and the remainder Total % len(winners)")
+			} else {
+				for n := int64(1); n <= 5 && len(bad) == 0; n++ {
+					for R := int64(0); R < n && len(bad) == 0; R++ {
+						for _, bv := range boolCombos(bools) {
+							extra := int64(0)
+							for i := int64(0); i < n; i++ {
+								a := Asg{I: map[string]int64{}, B: bv}
+								for _, t := range ints {
+									a.I[t] = 0
+								}
+								a.I[tIdx] = i - 1
+								a.I[tRem] = R
+								if tLen != "" {
+									a.I[tLen] = n
+								}
+								row, err := selectBodyPath(body, a)
+								if err != "" || row == nil {
+									bad = append(bad, "cannot evaluate the share table: "+err)
+									break
+								}
+								us := row.Calls("(*Result).Update")
+								if len(us) == 1 {
+									amt := us[0].Args[4].asAff().add(affTerm(lvl+".Wager"), 1)
+									extra += amt.C
+								}
+							}
+							if extra != R && len(bad) == 0 {
+								bad = append(bad, fmt.Sprintf("with %d tied winners and a remainder of %d, %d extra chip(s) are handed out: chips are lost or created, or shares differ by more than one", n, R, extra))
+							}
+						}
+					}
+				}
+			}
 		}
-		c.check(found && len(bad) == 0, "share-shape", fnKey(wr), p.FnPos(wr), "each winner gets Total/len(winners), plus one chip for as many winners as the remainder says", "winner shares are not an equal split with remainder", uniq(bad, 4)...)
+		c.check(found && len(bad) == 0, ruleName, fnKey(wr), p.FnPos(wr), "each winner gets Total/len(winners), plus one chip for as many winners as the remainder says", "winner shares are not an equal split with remainder", uniq(bad, 4)...)
 	}
 	if lr := p.Func("settlement", "Result", "CalculateLoserResults"); lr == nil {
-		c.undecided("share-shape", "CalculateLoserResults", "-", "not found")
+		c.undecided(ruleName, "CalculateLoserResults", "-", "not found")
 	} else {
 		c.touch(fnKey(lr))
 		lvl := "param:" + lr.Params[2].Name()
@@ -470,8 +529,68 @@ func runC02(c *Ctx) {
 				}
 			}
 		}
-		c.check(ok, "share-shape", fnKey(lr), p.FnPos(lr), "every loser of a level loses exactly that level's wager", "losers are charged wrongly: "+why)
+		c.check(ok, ruleName, fnKey(lr), p.FnPos(lr), "every loser of a level loses exactly that level's wager", "losers are charged wrongly: "+why)
 	}
+}
+
+// runLevelOwnership: a level's contributor slice is never built on top of another level's
+// slice (append to a foreign slice may share its backing array: a later append through the
+// other owner overwrites this level's entries).
+func runLevelOwnership(c *Ctx) {
+	p := c.P
+	ix := p.Index()
+	n := 0
+	for _, key := range []string{"pot.Level.Contributors", "settlement.RankGroup.Contributors"} {
+		for _, w := range ix.AnyWriters(key) {
+			c.touch(fnKey(w))
+			s := newSumm(p, 0)
+			s.EngineAliases = false
+			fp, _ := s.Function(w)
+			sets := [][]*PathSum{fp}
+			for _, l := range s.loops(w) {
+				bp, _ := s.LoopBody(w, l)
+				sets = append(sets, bp)
+			}
+			var bad []string
+			for _, set := range sets {
+				for _, ps := range set {
+					for _, e := range ps.storesTo(key) {
+						n++
+						v := e.Val
+						ok := isEmptyVal(v) || v.Op == "list" || v.Op == "makeslice" || strings.HasPrefix(v.String(), "param:")
+						if v.Op == "append" && len(v.Args) >= 1 {
+							first := v.Args[0].String()
+							ok = first == e.Loc || isEmptyVal(v.Args[0]) || v.Args[0].Op == "list" || v.Args[0].Op == "makeslice" || v.Args[0].Op == "append" && isEmptyVal(v.Args[0].Args[0])
+						}
+						if !ok {
+							bad = append(bad, fmt.Sprintf("%s := %s at %s: built on a slice owned by somebody else", e.Loc, v, e.Pos))
+						}
+					}
+				}
+			}
+			c.check(len(bad) == 0, "level-ownership", fnKey(w)+"#"+key, p.FnPos(w), "contributor lists are fresh or extended in place by their owner", "two levels can share one backing array", uniq(bad, 3)...)
+		}
+	}
+	c.floor("level-ownership", "stores to contributor lists", n, 3)
+}
+
+func boolCombos(names []string) []map[string]bool {
+	out := []map[string]bool{{}}
+	for _, n := range names {
+		var next []map[string]bool
+		for _, m := range out {
+			for _, b := range []bool{false, true} {
+				m2 := map[string]bool{}
+				for k, v := range m {
+					m2[k] = v
+				}
+				m2[n] = b
+				next = append(next, m2)
+			}
+		}
+		out = next
+	}
+	return out
 }
 
 // fullRangeCallsAliased is fullRangeCalls with the engine alias normalisation on.
